@@ -70,6 +70,16 @@ def run(ctx):
     extra.append({"src": "set f to transform if match == 'a' then set x to true else set x to 'q' end return x - 1 end\nreplace all any with f",
                   "texts": ["a", "b"]})
     extra.append({"src": "set f to transform return 1 / 0 end\nreplace all 'a' with f", "texts": ["a"]})
+    # captures NAMED LIKE the names the run-time environments define: a capture is a string whatever it is called, the built-in keeps its own type; what the
+    # checker accepted for the built-in must run when a capture of that name exists as well
+    bnames = ["match", "matchLength", "matchNumber", "totalMatches", "value", "startOffset", "endOffset", "lineNumber", "columnNumber", "filename"]
+    bexprs = ["%s * %s", "%s %% %s", "match - %s", "%s - 1", "%s + 1", "2 * %s", "%s / 2", "head %s", "%s == %s", "matchLength * %s", "%s * matchLength", "'' + %s"]
+    for nm in bnames:
+        for e in (bexprs if not quick else rng.sample(bexprs, 5) + ["%s * %s", "match - %s"]):
+            ex = e % ((nm,) * e.count("%s"))
+            extra.append({"src": "set f to transform return '' + (%s) end\nreplace all (at least 1 digit) = %s with f" % (ex, nm), "texts": ["ab 123", "7", "x", "10 20"]})
+            extra.append({"src": "set f to transform return '' + (%s) end\nreplace all at least 1 ((digit) = %s) with f %s" % (ex, nm, nm), "texts": ["ab 123", "7"]})
+            extra.append({"src": "set p to pattern (at least 1 digit) = %s begin return ('' + (%s)) != 'q' end\nfind all p" % (nm, ex), "texts": ["ab 123", "7"]})
     # process code that leaves something behind: transforms referenced several times in one replacement list, predicates asked several times in one attempt;
     # every call starts from the environment the checker assumed (unknown names are strings, match is the match text)
     stateful = ["set out to seen + match set seen to out == match return out", "set out to seen + match set seen to true return out",
